@@ -15,19 +15,19 @@ import (
 // (histories), C17 (schedules) and C18 (caches).
 
 type call struct {
-	Fn    string `json:"fn"`             // entry point
-	Elem  string `json:"elem,omitempty"` // pointer of the element in the root document (expanders) or the $ref text (resolvers)
-	Root  string `json:"root,omitempty"` // how the root is supplied: typed | value | generic | nil
-	Cache string `json:"cache,omitempty"`
+	Fn    string  `json:"fn"`             // entry point
+	Elem  string  `json:"elem,omitempty"` // pointer of the element in the root document (expanders) or the $ref text (resolvers)
+	Root  string  `json:"root,omitempty"` // how the root is supplied: typed | value | generic | nil
+	Cache string  `json:"cache,omitempty"`
 	Opts  expOpts `json:"opts"`
 }
 
 type callResult struct {
-	Err   string
-	Panic string
-	Budget bool
-	Out   interface{} // generic JSON of the result (expanded element / resolved element)
-	Loads []string
+	Err       string
+	Panic     string
+	Budget    bool
+	Out       interface{} // generic JSON of the result (expanded element / resolved element)
+	Loads     []string
 	RootAfter string // canonical JSON of the root after the call ("" when no root was passed)
 	OptsAfter string
 }
@@ -37,8 +37,8 @@ type harnessBug struct{ msg string }
 
 // memCache is a ResolutionCache implemented outside the library (what a caller can write).
 type memCache struct {
-	mu sync.Mutex
-	m  map[string]interface{}
+	mu         sync.Mutex
+	m          map[string]interface{}
 	Gets, Sets []string
 }
 
